@@ -160,7 +160,7 @@ def derivations(kind):
     if kind == "Length":
         d += ["add", "neg", "abs"]
     if kind in SEGS:
-        d += ["mul", "mulstr"]
+        d += ["mul", "mulstr", "seg_add_seg", "seg_add_str"]
     if kind in SHAPES + ["Text", "Image"]:
         d += ["mul", "abs"]
     if kind in SHAPES:
@@ -218,6 +218,12 @@ def derive(ctx, kind, how, obj, x, extras=None, before=None):
         seg = S.Line((x(), x()), (x(), x()))
         extras.append(seg)
         return obj + seg
+    if how == "seg_add_seg":
+        seg = S.Line((x(), x()), (x(), x()))
+        extras.append(seg)
+        return obj + seg
+    if how == "seg_add_str":
+        return obj + "L 1,2 3,4"
     if how == "Group":
         return S.Group(obj)
     raise KeyError(how)
@@ -503,6 +509,8 @@ def mclass(kind):
 
 def derived_class(kind, how):
     if how in ("Path", "Path_subpath", "add", "add_str", "add_seg") and kind in SHAPES:
+        return "Path"
+    if how in ("seg_add_seg", "seg_add_str"):
         return "Path"
     if how in ("copy_subpath", "mul_subpath"):
         return "Subpath"
